@@ -642,4 +642,38 @@ theorem sorted_bounds (l : List Int) (a b : Int) (hs : l.Pairwise (· < ·)) (hh
     · exact Int.le_of_lt ((List.pairwise_append.mp hs).2.2 t h b (by simp))
     · simp at h; omega
 
+/-! ### the bounded read-back -/
+
+/-- over strictly increasing timestamps the bounded iterator returns exactly the samples with
+    `mint ≤ t ≤ maxt` -/
+theorem filter_cons_pos' {α : Type} (f : α → Bool) (a : α) (l : List α) (h : f a = true) :
+    List.filter f (a :: l) = a :: List.filter f l := by simp [List.filter_cons, h]
+
+theorem filter_cons_neg' {α : Type} (f : α → Bool) (a : α) (l : List α) (h : f a = false) :
+    List.filter f (a :: l) = List.filter f l := by simp [List.filter_cons, h]
+
+theorem boundedDrain_sorted (mint maxt : Int) : ∀ (l : List Pt), Sorted l →
+    boundedDrain mint maxt l = l.filter (fun p => mint ≤ p.1 ∧ p.1 ≤ maxt)
+  | [], _ => rfl
+  | (t, v) :: rest, hs => by
+    have hs' := List.pairwise_cons.mp hs
+    have ih := boundedDrain_sorted mint maxt rest hs'.2
+    by_cases h1 : t < mint
+    · rw [filter_cons_neg' _ (t, v) rest (by simp; omega)]
+      simp only [boundedDrain, h1, if_true]
+      exact ih
+    · by_cases h2 : t ≤ maxt
+      · rw [filter_cons_pos' _ (t, v) rest (by simp; omega)]
+        simp only [boundedDrain, h1, if_false, h2, if_true]
+        rw [ih]
+      · rw [filter_cons_neg' _ (t, v) rest (by simp; omega)]
+        simp only [boundedDrain, h1, if_false, h2]
+        -- everything later is beyond maxt as well
+        symm
+        apply List.filter_eq_nil_iff.mpr
+        intro p hp
+        have := hs'.1 p hp
+        simp only [decide_eq_true_eq]
+        omega
+
 end Thanos.Downsample
